@@ -140,10 +140,10 @@ type scanWalker struct {
 	aborted           string
 	steps             int
 	// action mode (actionpaths.go)
-	action  bool
+	action   bool
 	classify func(h *core.Func) string // "" or the kind of event a call of h is
 	inlineOK func(h *core.Func) bool   // whether a call of h is followed
-	nextID  int
+	nextID   int
 }
 
 type scanAbort struct{ why string }
